@@ -89,6 +89,11 @@ def handle (ws : List String) : String :=
       | "colless" => match parseNorm arg with
         | some n => out Frac.render (colless n t)
         | none => "bad-op"
+      | "collessyule" =>
+        -- arg = `<ln n>,<Euler - 1 - ln 2>` as exact fractions: log is evaluated outside, the rational part here
+        match (arg.splitOn ",").mapM Frac.parse with
+        | some [lnN, k] => out Frac.render (collessYuleWith lnN k t)
+        | _ => "bad-op"
       | "collessparts" => out (fun (p : Nat × Nat) => s!"{p.2} {p.1}") (collessAcc t)
       | "b1" => "ok " ++ (b1 t).render
       | "treeness" => out Frac.render (treeness t)
